@@ -45,3 +45,71 @@ Print Assumptions C02_src_in_downtime.
 Example C02_src_nonvacuous : src_checkable_is_likely_to_be_checked_soon_recognised = true -> src_checkable_is_likely_to_be_checked_soon 100 true 300 160 = true /\ src_checkable_is_likely_to_be_checked_soon 100 true 300 161 = false.
 Proof. intro H; xl_rec H. all: repeat split; vm_compute; reflexivity. Qed.
 
+
+(* ---------------------------------------------------------------------------------------------------------------------
+   Round 2 (notes/XLATE.md section 8): the send / suppress / stash part of Checkable::ProcessCheckResult and
+   Checkable::FireSuppressedNotifications as translated from /repo on this run (coq/Facts/Facts_fn_supp.v), against
+   the model's result and fire steps.  Encodings: the int bit mask suppressed_notifications = supp_mask (32 Problem,
+   64 Recovery, 128 FlappingStart, 256 FlappingEnd), ServiceState = sstate_num, notification type = ntype_num. *)
+From Icv Require Import Ck.CkStateProofs Ck.CkSuppProofs Ck.CkSuppStep Ck.CkSuppFire Facts.Facts_fn_supp Src.SrcSupp.
+
+(* send_notification / suppress_notification are the model's c02_send and its suppress disjunction *)
+Theorem C02_src_send_suppress : src_pcr_send_suppress_recognised = true ->
+  forall b i s' new_state nreach in_dt acked,
+    src_pcr_send_suppress (xk_is_host (c_kind b)) nreach in_dt acked (i_hard_change i) (c_volatile b)
+      (xst_num (i_old_type i)) (xst_num (s_type s')) (sstate_num (i_old_raw i)) (sstate_num new_state)
+    = (in_dt, c02_send b i s' new_state, negb nreach || in_dt || acked).
+Proof. exact src_pcr_send_suppress_eq. Qed.
+Print Assumptions C02_src_send_suppress.
+
+(* the result step of the model (do_result, for a result that is not rejected as stale): the suppression mask and the
+   state before suppression it leaves, and the notifications it requests after the state-change event, are what the two
+   translated regions compute from the values the model has at that point (c02_res_view: state machine step,
+   reachability before the update, downtime and acknowledgement after triggering/clearing) *)
+Theorem C02_src_result_stash : src_pcr_notify_stash_recognised = true -> src_pcr_send_suppress_recognised = true ->
+  forall c now r f, rejected now (f_st f) r = false ->
+    let v := c02_res_view c now r f in
+    let f5 := rv_f5 v in
+    let i := rv_i v in
+    let '(_, send, suppress) :=
+      src_pcr_send_suppress (xk_is_host (c_kind (fc_base c))) (rv_nreach v) (rv_indt v) (rv_acked v) (i_hard_change i)
+        (c_volatile (fc_base c)) (xst_num (i_old_type i)) (xst_num (s_type (rv_s v))) (sstate_num (i_old_raw i)) (sstate_num (r_state r)) in
+    exists evs,
+      snd (do_result c now r f) = rv_o1 v ++ rv_o2 v ++ rv_o3 v ++ rv_o4 v ++ [ONewResult] ++ [OStateChange (i_event i)] ++ evs /\
+      src_pcr_notify_stash (is_flapping c (f_flap f5)) (is_flapping c (update_flap c (r_state r) (f_flap f5))) (f_paused f5)
+        (rv_indt v) send suppress (i_recovery i) (xst_num (i_old_type i)) (sstate_num (i_old_raw i)) (supp_mask f5) (sstate_num (f_sbs f5))
+      = (supp_mask (fst (do_result c now r f)), sstate_num (f_sbs (fst (do_result c now r f))), map xn_of_out evs).
+Proof. exact src_pcr_result_stash. Qed.
+Print Assumptions C02_src_result_stash.
+
+(* the same region on its atoms (every combination of the 11 booleans, 2 state types, 4 x 4 states) *)
+Theorem C02_src_notify_stash : src_pcr_notify_stash_recognised = true ->
+  forall was_fl is_fl paused in_dt send suppress recovery p r fs fe old_type old_state sbs,
+    src_pcr_notify_stash was_fl is_fl paused in_dt send suppress recovery (xst_num old_type) (sstate_num old_state)
+                         (xmask p r fs fe) (sstate_num sbs)
+    = xc02_core_enc (xc02_core was_fl is_fl paused in_dt send suppress recovery p r fs fe old_type old_state sbs).
+Proof. exact src_pcr_notify_stash_eq. Qed.
+Print Assumptions C02_src_notify_stash.
+
+(* the fire step of the model (do_fire): the mask it leaves and the state / flapping notifications it requests are what
+   the translated FireSuppressedNotifications computes from the attributes of the model state *)
+Theorem C02_src_fire : src_checkable_fire_suppressed_notifications_recognised = true ->
+  src_checkable_is_likely_to_be_checked_soon_recognised = true ->
+  forall c now f,
+    src_checkable_fire_suppressed_notifications true (f_paused f) true (supp_mask f) (xk_is_host (c_kind (fc_base c)))
+      (s_has_cr (f_st f)) (sstate_num (s_raw (f_st f))) (xst_num (s_type (f_st f))) (sstate_num (f_sbs f))
+      (notif_reachable f) (in_downtime now f) (c02_ack_live now f) (is_flapping c (f_flap f))
+      (src_checkable_is_likely_to_be_checked_soon now (fc_active_checks c) (fc_check_interval c) (f_next_check f))
+      (parent_recovered_recently f)
+    = (supp_mask (fst (do_fire c now f)),
+       map xn_of_out (c02_state_outs (snd (do_fire c now f)) ++ c02_flap_outs (snd (do_fire c now f)))).
+Proof. exact src_fire_do_fire. Qed.
+Print Assumptions C02_src_fire.
+
+(* non-vacuity: a hard problem during a downtime is stashed with the previous hard state; once the downtime is over and
+   the state differs from the stashed one the timer sends it and clears the bits *)
+Example C02_src_round2_nonvacuous : src_pcr_notify_stash_recognised = true -> src_checkable_fire_suppressed_notifications_recognised = true ->
+  src_pcr_notify_stash false false false true true true false 1 0 0 0 = (32, 0, []) /\
+  src_checkable_fire_suppressed_notifications true false true 32 false true 2 1 0 true false false false false false = (0, [XnRequest 32]) /\
+  src_checkable_fire_suppressed_notifications true false true 32 false true 2 1 2 true false false false false false = (0, []).
+Proof. intros H1 H2; xl_rec H1; xl_rec H2. all: repeat split; vm_compute; reflexivity. Qed.
